@@ -34,6 +34,7 @@ import (
 const (
 	latencyGuard  = 3 * time.Second  // a pool call must return within this bound (normally microseconds)
 	settleTimeout = 10 * time.Second // waiting for the pool's own goroutines to reach the expected parked state
+	probeGuard    = 8 * time.Second  // a read-only accessor that only takes pool.mu must return within this bound (a frozen pool never does)
 )
 
 // ------------------------------------------------------------------ operations (JSON = replay format)
@@ -50,7 +51,7 @@ type sendPeer struct {
 }
 
 type op struct {
-	K      string     `json:"k"` // add bcast byid addtags rmtags rmtagsid streams release readerr closerel send sendstuck
+	K      string     `json:"k"` // add bcast byid addtags rmtags rmtagsid streams release readerr closerel send sendstuck ownerlock ownerunlock
 	Peer   int        `json:"peer,omitempty"`
 	Cap    int        `json:"cap,omitempty"`
 	Tags   []int      `json:"tags,omitempty"`
@@ -282,6 +283,13 @@ type removal struct {
 	tags []string
 }
 
+// hookNote: a close hook that has RETURNED: what its call-back into the pool (Streams(closedTags...)) saw
+type hookNote struct {
+	sid  uint32
+	tags []string
+	view []uint64
+}
+
 type world struct {
 	pool         streampool.StreamPool
 	ctx          context.Context
@@ -293,8 +301,17 @@ type world struct {
 	stuckPeers   map[string]bool
 	stuckEntered atomic.Int32
 	stuckWanted  int
-	removals     []removal
+	removals     []removal // close-hook INVOCATIONS (logged at the hook's entry, before the owner's mutex)
 	seenRemovals int
+	// the pool's owner: lock order ownerMu -> pool.mu (pubsub: remoteMu held across AddTagsCtx / RemoveTagsById); the
+	// close hook takes ownerMu and calls back into the pool, which the WithStreamCloseHook contract allows ("outside
+	// the pool lock")
+	ownerMu      sync.Mutex
+	ownerHeld    bool // by the harness goroutine (ops ownerlock / ownerunlock); only touched by that goroutine
+	notes        []hookNote
+	seenNotes    int
+	hookProblems []string
+	frozen       atomic.Bool // pool.mu was not obtainable within the guard: no further call into the pool is attempted
 	freeWorkers  int
 	fatalHits    *atomic.Int32
 	sharedTags   map[string][]string // caller-owned tag slices (op.Shared)
@@ -378,24 +395,75 @@ func newWorld(workers, dialCap int, fatalHits *atomic.Int32) *world {
 		freeWorkers: workers, fatalHits: fatalHits}
 	w.ctx, w.cancel = context.WithCancel(context.Background())
 	w.pool = streampool.NewStreamPool(&handler{w}, streampool.StreamConfig{SendQueueSize: 10, DialQueueWorkers: workers, DialQueueSize: dialCap},
-		streampool.WithStreamCloseHook(func(streamId uint32, peerId string, tags []string) {
-			w.mu.Lock()
-			w.removals = append(w.removals, removal{streamId, append([]string(nil), tags...)})
-			fs := append([]*fakeStream(nil), w.fakes...)
-			w.mu.Unlock()
-			for _, f := range fs {
-				f.mu.Lock()
-				if f.sid == streamId {
-					f.removed = true
-				}
-				f.mu.Unlock()
-			}
-		}))
+		streampool.WithStreamCloseHook(w.closeHook))
 	_ = w.pool.Run(context.Background())
 	return w
 }
 
+// closeHook is the owner's stream-close callback. Entry is logged first (= the pool has finished removeStream's
+// critical section and announced the end of the stream); then the owner's part: take the owner's mutex, look at the
+// pool (Streams of the closed tags: the ended stream must be gone already), record, release.
+func (w *world) closeHook(streamId uint32, peerId string, tags []string) {
+	w.mu.Lock()
+	w.removals = append(w.removals, removal{streamId, append([]string(nil), tags...)})
+	fs := append([]*fakeStream(nil), w.fakes...)
+	w.mu.Unlock()
+	for _, f := range fs {
+		f.mu.Lock()
+		if f.sid == streamId {
+			f.removed = true
+		}
+		f.mu.Unlock()
+	}
+	w.ownerMu.Lock()
+	defer w.ownerMu.Unlock()
+	defer func() {
+		if p := recover(); p != nil {
+			w.mu.Lock()
+			w.hookProblems = append(w.hookProblems, fmt.Sprintf("panic in the close hook's Streams call-back: %v", p))
+			w.mu.Unlock()
+		}
+	}()
+	n := hookNote{sid: streamId, tags: append([]string(nil), tags...)}
+	for _, s := range w.pool.Streams(tags...) {
+		if f, ok := s.(*fakeStream); ok && f != nil {
+			f.mu.Lock()
+			n.view = append(n.view, uint64(f.sid))
+			f.mu.Unlock()
+		} else {
+			n.view = append(n.view, 0)
+		}
+	}
+	sortedU(n.view)
+	w.mu.Lock()
+	w.notes = append(w.notes, n)
+	w.mu.Unlock()
+}
+
+const frozenMsg = "pool.mu not obtainable within the guard: the pool is frozen (lock held across a blocking call / a close hook running under the pool lock?)"
+
+// probe runs a read-only verif accessor that takes pool.mu under a (generous) guard: if the pool lock is held for ever
+// (that is the property's violation) the harness must notice instead of hanging itself.
+func (w *world) probe(f func()) bool {
+	if w.frozen.Load() {
+		return false
+	}
+	done := make(chan struct{})
+	go func() { defer close(done); f() }()
+	select {
+	case <-done:
+		return true
+	case <-time.After(probeGuard):
+		w.frozen.Store(true)
+		return false
+	}
+}
+
 func (w *world) teardown() {
+	if w.ownerHeld {
+		w.ownerHeld = false
+		w.ownerMu.Unlock()
+	}
 	w.cancel()
 	close(w.dead)
 	done := make(chan struct{})
@@ -451,7 +519,9 @@ func (w *world) quiescentOnce() (bool, string) {
 		f.mu.Unlock()
 		if h == nil {
 			// never call into the pool while holding a fake's lock (the pool calls the fakes under its own lock)
-			h = streampool.VerifStreamHandle(w.pool, sid)
+			if !w.probe(func() { h = streampool.VerifStreamHandle(w.pool, sid) }) {
+				return false, frozenMsg
+			}
 		}
 		f.mu.Lock()
 		if f.handle == nil {
@@ -488,16 +558,36 @@ func (w *world) quiescentOnce() (bool, string) {
 		}
 		return false, fmt.Sprintf("fake %d: writer not parked yet", i)
 	}
+	// every invoked close hook has returned, unless the harness (the owner) holds the owner's mutex
+	if !w.ownerHeld {
+		w.mu.Lock()
+		inv, ret := len(w.removals), len(w.notes)
+		w.mu.Unlock()
+		if inv != ret {
+			return false, fmt.Sprintf("close hook not finished: %d invoked, %d returned", inv, ret)
+		}
+	}
 	return true, ""
 }
 
 func (w *world) settle() (bool, string) {
 	deadline := time.Now().Add(settleTimeout)
 	fallback := time.Now().Add(300 * time.Millisecond)
+	nextAlive := time.Now().Add(time.Second)
 	why := ""
 	for spins := 0; ; spins++ {
 		if w.fatalHits.Load() > 0 {
 			return true, "" // reported by the caller; the pool lock may be held for ever now
+		}
+		if w.frozen.Load() {
+			return false, frozenMsg
+		}
+		// something takes long: is the pool lock still obtainable? (bounded, read-only)
+		if time.Now().After(nextAlive) {
+			if !w.probe(func() { streampool.VerifStreamHandle(w.pool, 0) }) {
+				return false, frozenMsg + " [last: " + why + "]"
+			}
+			nextAlive = time.Now().Add(time.Second)
 		}
 		ok, y := w.quiescentOnce()
 		if ok {
@@ -538,6 +628,9 @@ type obsT struct {
 	}
 	Snap   string
 	Timely bool
+	// owner layer
+	Notes   []hookNote // close hooks that returned during the operation, by stream id
+	Pending []uint64   // hooks invoked and still parked after the operation
 }
 
 func sortedU(v []uint64) []uint64 {
@@ -563,7 +656,7 @@ func imapTerm(m map[string][]uint32) string {
 	return mlist("cK", "nK", items)
 }
 
-func (w *world) snapTerm() string {
+func (w *world) snapTerm() (string, bool) {
 	caps := map[uint32]int{}
 	w.mu.Lock()
 	for _, f := range w.fakes {
@@ -572,9 +665,13 @@ func (w *world) snapTerm() string {
 		f.mu.Unlock()
 	}
 	w.mu.Unlock()
-	sn, ok := streampool.VerifSnapshotOf(w.pool)
+	var sn streampool.VerifSnapshot
+	var ok bool
+	if !w.probe(func() { sn, ok = streampool.VerifSnapshotOf(w.pool) }) {
+		return "(mkSnap nV nK nK)", false
+	}
 	if !ok {
-		return "(mkSnap nV nK nK)"
+		return "(mkSnap nV nK nK)", true
 	}
 	sort.Slice(sn.Streams, func(i, j int) bool { return sn.Streams[i].StreamId < sn.Streams[j].StreamId })
 	items := make([]string, len(sn.Streams))
@@ -590,7 +687,7 @@ func (w *world) snapTerm() string {
 		items[i] = vlib.App("pV", vlib.N(uint64(s.StreamId)),
 			vlib.App("mkSview", vlib.N(p), nlist(sortedU(tags)), vlib.N(uint64(s.QueueLen)), vlib.N(uint64(caps[s.StreamId]))))
 	}
-	return vlib.App("mkSnap", mlist("cV", "nV", items), imapTerm(sn.ByPeer), imapTerm(sn.ByTag))
+	return vlib.App("mkSnap", mlist("cV", "nV", items), imapTerm(sn.ByPeer), imapTerm(sn.ByTag)), true
 }
 
 func (o obsT) term() string {
@@ -606,8 +703,17 @@ func (o obsT) term() string {
 	for i, r := range o.Removed {
 		rem[i] = vlib.App("pK", vlib.N(r.Sid), nlist(r.Tags))
 	}
-	return vlib.App("mkObs", vlib.N(uint64(o.Err)), nlist(o.Ids), mlist("cP", "nP", takes), mlist("cE", "nE", evs), nlist(o.Closed),
+	base := vlib.App("mkObs", vlib.N(uint64(o.Err)), nlist(o.Ids), mlist("cP", "nP", takes), mlist("cE", "nE", evs), nlist(o.Closed),
 		mlist("cK", "nK", rem), o.Snap, vlib.Bool(o.Timely))
+	notes := make([]string, len(o.Notes))
+	for i, n := range o.Notes {
+		tags := make([]uint64, len(n.tags))
+		for k, t := range n.tags {
+			tags[k] = num(t)
+		}
+		notes[i] = vlib.App("pT", vlib.N(uint64(n.sid)), nlist(sortedU(tags)), nlist(n.view))
+	}
+	return vlib.App("mkObs2", base, mlist("cT", "nT", notes), nlist(o.Pending))
 }
 
 // monomorphic list/pair builders (defined in Run/C19_run.v): elaboration of the case files is several times
@@ -638,6 +744,16 @@ func nl(v []int) string {
 }
 
 func (o op) term() string {
+	switch o.K {
+	case "ownerlock":
+		return "H2Lock"
+	case "ownerunlock":
+		return "H2Unlock"
+	}
+	return "(H2 " + o.baseTerm() + ")"
+}
+
+func (o op) baseTerm() string {
 	switch o.K {
 	case "add":
 		return vlib.App("HAddStream", vlib.N(uint64(o.Peer)), vlib.N(uint64(o.Cap)), nl(o.Tags), vlib.Bool(o.CGate))
@@ -825,6 +941,20 @@ func (r *runner) exec(i int, o op) (obsT, bool) {
 				f.closeGate <- struct{}{}
 			}
 		}
+	case "ownerlock":
+		// the harness becomes the owner inside its section: every pool call until ownerunlock is made with the owner's
+		// mutex held, every close hook that is invoked meanwhile parks on it
+		if !w.ownerHeld {
+			call(func() error { w.ownerMu.Lock(); return nil })
+			if timely && pan == nil {
+				w.ownerHeld = true
+			}
+		}
+	case "ownerunlock":
+		if w.ownerHeld {
+			w.ownerHeld = false
+			w.ownerMu.Unlock()
+		}
 	case "send", "sendstuck":
 		var peers []peer.Peer
 		w.mu.Lock()
@@ -914,7 +1044,26 @@ func (r *runner) exec(i int, o op) (obsT, bool) {
 	fs := append([]*fakeStream(nil), w.fakes...)
 	rems := append([]removal(nil), w.removals[w.seenRemovals:]...)
 	w.seenRemovals = len(w.removals)
+	ob.Notes = append([]hookNote(nil), w.notes[w.seenNotes:]...)
+	w.seenNotes = len(w.notes)
+	returned := map[uint32]bool{}
+	for _, n := range w.notes {
+		returned[n.sid] = true
+	}
+	for _, rm := range w.removals {
+		if !returned[rm.sid] {
+			ob.Pending = append(ob.Pending, uint64(rm.sid))
+		}
+	}
+	hp := append([]string(nil), w.hookProblems...)
 	w.mu.Unlock()
+	sort.Slice(ob.Notes, func(a, b int) bool { return ob.Notes[a].sid < ob.Notes[b].sid })
+	sortedU(ob.Pending)
+	if len(hp) > 0 {
+		r.problems = append(r.problems, hp...)
+		ob.Timely = false
+		return ob, false
+	}
 	for _, f := range fs {
 		f.mu.Lock()
 		for k := f.seenEntered; k < len(f.entered); k++ {
@@ -949,7 +1098,13 @@ func (r *runner) exec(i int, o op) (obsT, bool) {
 			Tags []uint64
 		}{uint64(rm.sid), sortedU(tags)})
 	}
-	ob.Snap = w.snapTerm()
+	var alive bool
+	ob.Snap, alive = w.snapTerm()
+	if !alive {
+		r.problems = append(r.problems, "after "+o.K+": "+frozenMsg)
+		ob.Timely = false
+		return ob, false
+	}
 	return ob, true
 }
 
@@ -977,7 +1132,7 @@ func runCase(d caseDesc, fatalHits *atomic.Int32) (term string, problems []strin
 		}
 	}
 	w.teardown()
-	term = vlib.App("CHist", vlib.N(uint64(d.Workers)), vlib.N(uint64(d.DialCap)), mlist("cH", "nH", ops), mlist("cO", "nO", obs))
+	term = vlib.App("CHook", vlib.N(uint64(d.Workers)), vlib.N(uint64(d.DialCap)), mlist("cH2", "nH2", ops), mlist("cO2", "nO2", obs))
 	return term, r.problems, r
 }
 
@@ -1031,6 +1186,9 @@ func main() {
 		}
 		if d.Kinds != "" {
 			w.Stat("profile_" + d.Kinds)
+		}
+		if ownerSectionCloses(d) > 0 {
+			w.Stat("owner_section_with_stream_end")
 		}
 		if len(samples) < 4 && nt && len(d.Ops) >= 8 && w.Count()%7 == 0 {
 			samples = append(samples, d)
@@ -1096,7 +1254,9 @@ func main() {
 		"sequences of 6..40 operations over <= 6 streams, 3 peers, 3 tags, queue sizes 1..4 (and the default), dial workers 1..2; "+
 		"a case is non-trivial if it has a blocked stream (a MsgSend never released before a later send to it) and at least one "+
 		"send-type operation after it, or a close; distinct by operation list; plus util/multiqueue histories (add / handler release / CloseThread / Close, "+
-		"sizes 1..3, non-trivial from 8 operations)",
+		"sizes 1..3, non-trivial from 8 operations); "+
+		"every pool has a close hook that takes the owner's mutex and calls back into the pool (Streams of the closed tags); in the -owner profiles "+
+		"the harness holds the owner's mutex across pool calls (ownerlock .. ownerunlock) while streams end (hooks parked)",
 		samples, map[string]interface{}{"max_call_latency_us": maxLat.Microseconds(), "latency_guard_ms": latencyGuard.Milliseconds(),
 			"settle_probe_fallbacks": fallbacks})
 }
@@ -1109,6 +1269,28 @@ func keyOf2(d mqDesc) string {
 func keyOf(d caseDesc) string {
 	b, _ := json.Marshal(d)
 	return string(b)
+}
+
+// ownerSectionCloses counts stream ends requested while the owner's mutex is held
+func ownerSectionCloses(d caseDesc) int {
+	n, locked := 0, false
+	for _, o := range d.Ops {
+		switch o.K {
+		case "ownerlock":
+			locked = true
+		case "ownerunlock":
+			locked = false
+		case "readerr", "closerel":
+			if locked {
+				n++
+			}
+		case "release":
+			if locked && !o.Ok {
+				n++
+			}
+		}
+	}
+	return n
 }
 
 func nontrivial(d caseDesc) bool {
